@@ -131,6 +131,11 @@ def ogmLine (d : OGMDrv) (lineNo : Nat) (ts : List String) : OGMDrv × List Stri
           (if d.timedOut || d.curIds.all (fun i => d.signalled.contains i) then []
            else if !d.idxDistinct then ["C09.fired-before-everybody-signalled.shared-index"]
            else ["C09.fired-before-everybody-signalled"])) []) ++
+        -- liveness: everybody named by the current set-up has signalled (distinct indexes, quiescent regime) — the
+        -- completion has run by now
+        (if d.pendingOp == "ready" && !d.curIds.isEmpty && d.idxDistinct && !d.rebuiltAllReady &&
+            d.curIds.all (fun i => d.signalled.contains i) && n == 0
+         then ["C09.no-completion-although-everybody-signalled"] else []) ++
         (if d.pendingOp == "setup" && !d.rebuiltAllReady &&
             (ps.map (·.1)) != (partsKey (d.curIds.map (fun i => (i, (0 : Int), false)))).map (·.1)
          then ["C09.gate-state-does-not-name-exactly-the-participants-of-the-set-up"] else []) ++
